@@ -32,6 +32,8 @@ def _(c):
     def post(x):
         if x.a.tag("fn") == "none":
             return z3.BoolVal(x.res is x.a.sv("data"))
+        if getattr(x, "p", None) is None:
+            return z3.BoolVal(True)  # used at a call site: the relation to the raw callback event is a fact of this function's own proof, not restated to callers
         ev = last_event(x)
         if ev is None or ev[0] != "return":
             return z3.BoolVal(False)
@@ -53,6 +55,8 @@ def _(c):
     def post(x):
         if x.a.tag("fn") == "none":
             return z3.BoolVal(x.res.tag == "none")
+        if getattr(x, "p", None) is None:
+            return z3.BoolVal(True)  # used at a call site: the relation to the raw callback event is a fact of this function's own proof, not restated to callers
         ev = last_event(x)
         if ev is None:
             return z3.BoolVal(False)
@@ -79,12 +83,32 @@ def _(c):
     c.param("fn", "cb").param("node", "node").param("memo", "val")
     c.families = ("plain",)
     c.result_tag = "any"
-    c.pure()
+    c.result_alternatives = ("none", "false")
+    # ghost: every call is one event of the callback's trace (logic.TN / TK at index tlen(fn)); its kind is a function of the
+    # outcome alone: None -> continue, False -> skip, StopTraversal -> stop, any other exception -> error
+    c.modifies("tlen")
+
+    def kind_of(x):
+        if x.exc is not None:
+            return L.EV_STOP if x.exc.cls == "StopTraversal" else L.EV_ERR
+        return L.EV_CONT if x.res.tag == "none" else L.EV_SKIP
+
+    c.trace_event = lambda x: (x.a.fn, x.a.node, kind_of(x))
+
+    def traced(x):
+        cbv = L.fresh("cbv", L.Val)
+        i0 = x.h0.tlen(x.a.fn)
+        return And(x.h.tlen(x.a.fn) == i0 + 1, L.TN(x.a.fn, i0) == x.a.node, L.TK(x.a.fn, i0) == kind_of(x),
+                   z3.ForAll([cbv], Implies(cbv != x.a.fn, x.h.tlen(cbv) == x.h0.tlen(cbv)), patterns=[x.h.tlen(cbv)]))
+
+    c.ensures("the call is recorded as the next event of fn's trace (node, kind of the outcome); other traces untouched", traced)
 
     def stopish(v):
         return Or(is_ctrl(v, "StopTraversal"), v == L.V_FALSE, is_ctrl(v, "StopIteration"))
 
     def normal(x):
+        if getattr(x, "p", None) is None:
+            return z3.BoolVal(True)  # used at a call site: the relation to the raw callback event is a fact of this function's own proof, not restated to callers
         ev = last_event(x)
         if ev is None:
             return z3.BoolVal(False)
@@ -99,6 +123,8 @@ def _(c):
     c.ensures("None -> None (continue); SkipBranch returned or raised -> False (skip)", normal)
 
     def on_stop(x):
+        if getattr(x, "p", None) is None:
+            return z3.BoolVal(True)  # used at a call site: the relation to the raw callback event is a fact of this function's own proof, not restated to callers
         ev = last_event(x)
         if ev is None:
             return z3.BoolVal(False)
@@ -114,6 +140,8 @@ def _(c):
     c.may_raise("StopTraversal", ensures=on_stop, name="stop: StopTraversal/False/StopIteration returned or raised, value carried")
 
     def on_value_error(x):
+        if getattr(x, "p", None) is None:
+            return z3.BoolVal(True)  # used at a call site: the relation to the raw callback event is a fact of this function's own proof, not restated to callers
         ev = last_event(x)
         if ev is None or ev[0] != "return":
             return z3.BoolVal(False)
@@ -124,3 +152,6 @@ def _(c):
     c.may_raise("TypeError", ensures=on_value_error, name="other return values (property is silent)")
     c.may_raise("UserError", ensures=None, name="callback raises")
     c.may_raise("SelectBranch", ensures=lambda x: z3.BoolVal(last_event(x) is not None and last_event(x)[0] == "raise" and last_event(x)[1] == "SelectBranch"), name="SelectBranch raised by the callback propagates")
+    for r in c.raises_:  # every exceptional outcome is an event too
+        r.havoc = ("tlen",)
+        r.ensures = (lambda x, _e=r.ensures: And(_e(x) if _e is not None else z3.BoolVal(True), traced(x)))
